@@ -31,6 +31,8 @@ class Scope(list[Any]):
     """List-like scope bindings with dict-style access by name."""
 
     owner: "NixExpression | None"
+    # True for a `with` environment: consulted only after every lexical scope.
+    dynamic: bool = False
 
     def __init__(
         self, items: Iterable[Any] = (), *, owner: "NixExpression | None" = None
